@@ -45,6 +45,56 @@ def _branch(fn, node, test_text):
     return None
 
 
+def backward_bound_rules(ctx: Ctx, rid: str):
+    """TaskScenario.schedule, backward branch: the deadline is a min-accumulator over the successors' starts minus the gap of the
+    successor's (own or inherited) edge (C04 R04.2 backward / C08 R08.7)."""
+    repo = ctx.repo
+    sched = repo.func("TaskScenario.schedule")
+    fd = ctx.dep.of(sched)
+    # backward
+    bwd_updates = [n for n in own_nodes(sched) if isinstance(n, ast.If) and _branch(sched, n, "forward") == "F"
+                   and any(isinstance(s, ast.Assign) and norm(s.targets[0]) == "latest_end" for s in ast.walk(n) if isinstance(s, ast.Assign))
+                   and isinstance(n.test, (ast.Compare, ast.BoolOp)) and "latest_end" in norm(n.test)]
+    if len(bwd_updates) < 2:
+        raise AnchorMissing(f"backward accumulators in TaskScenario.schedule: {len(bwd_updates)} found")
+    for n in bwd_updates:
+        asg = next(s for s in n.body if isinstance(s, ast.Assign) and norm(s.targets[0]) == "latest_end")
+        new = norm(asg.value)
+        parts = n.test.values if isinstance(n.test, ast.BoolOp) else [n.test]
+        cmpn = next(p for p in parts if isinstance(p, ast.Compare))
+        tab = order_table(cmpn, lambda e: norm(e) == new, lambda e: norm(e) == "latest_end")
+        ok = tab["<"] is True and tab[">"] is False
+        ctx.ob(rid, f"{sched.qual}: backward accumulator {norm(cmpn)}", (sched, n), ok,
+               "bound only moves earlier (min-accumulator)" if ok else f"backward bound is not a min-accumulator ({tab})",
+               key=key_of(rid, sched, None, "bwd acc " + new))
+        d = data(fd.deps_of(asg.value))
+        if new == "succ_start":
+            for a, what in (("pattr:start", "successor start"), ("call:_getSuccessors", "successor enumeration"),
+                            ("call:_gapToSuccessor", "gap of the successor's edge")):
+                ok = a in d
+                ctx.ob(rid, f"{sched.qual}: backward bound depends on {what}", (sched, asg), ok,
+                       f"succ_start depends on {a}" if ok else
+                       f"the backward bound from finish-to-start successors ignores the {what}: a requested gap is not kept",
+                       key=f"{rid}|TaskScenario.schedule|bwd {a}")
+    for n in own_nodes(sched):
+        if isinstance(n, ast.Assign) and norm(n.targets[0]) in ("succ_start", "pred_start") and _branch(sched, n, "forward") == "F" \
+                and isinstance(n.value, ast.BinOp) and "timedelta" in norm(n.value):
+            m = mono(n.value, lambda e: isinstance(e, ast.Name) and e.id == "gap_hours")
+            ok = m == "-"
+            ctx.ob(rid, f"{sched.qual}: {norm(n)}", (sched, n), ok,
+                   "bound = successor time - gap" if ok else f"gap is not subtracted in backward mode (mono {m})",
+                   key=f"{rid}|TaskScenario.schedule|bwd gap sign {norm(n.targets[0])}")
+    # the gap helper reads the edge whose predecessor is this task
+    if repo.has_func("TaskScenario._gapToSuccessor"):
+        gts = repo.func("TaskScenario._gapToSuccessor")
+        dg = full(ctx.dep.summary(gts).ret)
+        ok = {"pattr:gapduration", "call:getAllDependencies", "call:_parse_duration"} <= dg and "field:property" in dg
+        ctx.ob(rid, f"{gts.qual}: gap of the edge successor -> self", gts, ok,
+               "reads gapduration of the successor's edge to this task" if ok else "gap helper does not read the successor's edge to this task",
+               key="R04.2|TaskScenario._gapToSuccessor|reads")
+
+
+
 def forward_bound_accumulator(ctx: Ctx, rid: str):
     """TaskScenario.schedule, forward branch: the dependency bound is a max-accumulator over all edges (C04 R04.2 / C07 R07.4)."""
     from .common import facts_of, lit_compare
@@ -195,46 +245,7 @@ def run(ctx: Ctx):
                    "walk starts in the slot of the dependency bound" if ok else "forward walk does not start at the dependency bound",
                    key="R04.2|TaskScenario.schedule|fwd cursor")
     # backward
-    bwd_updates = [n for n in own_nodes(sched) if isinstance(n, ast.If) and in_forward(n) == "F"
-                   and any(isinstance(s, ast.Assign) and norm(s.targets[0]) == "latest_end" for s in ast.walk(n) if isinstance(s, ast.Assign))
-                   and isinstance(n.test, (ast.Compare, ast.BoolOp)) and "latest_end" in norm(n.test)]
-    if len(bwd_updates) < 2:
-        raise AnchorMissing(f"backward accumulators in TaskScenario.schedule: {len(bwd_updates)} found")
-    for n in bwd_updates:
-        asg = next(s for s in n.body if isinstance(s, ast.Assign) and norm(s.targets[0]) == "latest_end")
-        new = norm(asg.value)
-        parts = n.test.values if isinstance(n.test, ast.BoolOp) else [n.test]
-        cmpn = next(p for p in parts if isinstance(p, ast.Compare))
-        tab = order_table(cmpn, lambda e: norm(e) == new, lambda e: norm(e) == "latest_end")
-        ok = tab["<"] is True and tab[">"] is False
-        ctx.ob("R04.2", f"{sched.qual}: backward accumulator {norm(cmpn)}", (sched, n), ok,
-               "bound only moves earlier (min-accumulator)" if ok else f"backward bound is not a min-accumulator ({tab})",
-               key=key_of("R04.2", sched, None, "bwd acc " + new))
-        d = data(fd.deps_of(asg.value))
-        if new == "succ_start":
-            for a, what in (("pattr:start", "successor start"), ("call:_getSuccessors", "successor enumeration"),
-                            ("call:_gapToSuccessor", "gap of the successor's edge")):
-                ok = a in d
-                ctx.ob("R04.2", f"{sched.qual}: backward bound depends on {what}", (sched, asg), ok,
-                       f"succ_start depends on {a}" if ok else
-                       f"the backward bound from finish-to-start successors ignores the {what}: a requested gap is not kept",
-                       key=f"R04.2|TaskScenario.schedule|bwd {a}")
-    for n in own_nodes(sched):
-        if isinstance(n, ast.Assign) and norm(n.targets[0]) in ("succ_start", "pred_start") and in_forward(n) == "F" \
-                and isinstance(n.value, ast.BinOp) and "timedelta" in norm(n.value):
-            m = mono(n.value, lambda e: isinstance(e, ast.Name) and e.id == "gap_hours")
-            ok = m == "-"
-            ctx.ob("R04.2", f"{sched.qual}: {norm(n)}", (sched, n), ok,
-                   "bound = successor time - gap" if ok else f"gap is not subtracted in backward mode (mono {m})",
-                   key=f"R04.2|TaskScenario.schedule|bwd gap sign {norm(n.targets[0])}")
-    # the gap helper reads the edge whose predecessor is this task
-    if repo.has_func("TaskScenario._gapToSuccessor"):
-        gts = repo.func("TaskScenario._gapToSuccessor")
-        dg = full(ctx.dep.summary(gts).ret)
-        ok = {"pattr:gapduration", "call:getAllDependencies", "call:_parse_duration"} <= dg and "field:property" in dg
-        ctx.ob("R04.2", f"{gts.qual}: gap of the edge successor -> self", gts, ok,
-               "reads gapduration of the successor's edge to this task" if ok else "gap helper does not read the successor's edge to this task",
-               key="R04.2|TaskScenario._gapToSuccessor|reads")
+    backward_bound_rules(ctx, "R04.2")
 
     # ---------------------------------------------------------------- R04.3
     proj = repo.func("Project._define_task_attributes")
@@ -342,10 +353,44 @@ def run(ctx: Ctx):
            "precedes carries the same option keys as depends" if ok else
            f"'precedes' drops {sorted(kd - kp)}: the same relation written as 'precedes' loses its gap / kind",
            key="R04.5|_resolve_precedes|keys")
+    # ---------------------------------------------------------------- R04.7 readiness waits for the predecessor ITSELF
+    # the bound reads the end date of the predecessor named by the edge (a leaf or a container); that date exists only
+    # once that task's own `scheduled` flag is set, so every iteration of the readiness loop must leave the loop body
+    # with the fact  not t  or  t.get('scheduled', scenario)
+    from .common import facts_of
+    rdy = repo.func("TaskScenario._asapReadyForScheduling")
+    gr = cfg_of(rdy)
+    fr = facts_of(rdy)
+    loops_r = [l for l in own_nodes(rdy) if isinstance(l, ast.For) and "getAllDependencies" in norm(l.iter)]
+    if len(loops_r) != 1:
+        raise AnchorMissing(f"_asapReadyForScheduling: {len(loops_r)} loops over getAllDependencies")
+    hdr = gr.node_of(loops_r[0])
+    dom_r = gr.dominators()
+    n_back = 0
+    for (a, lbl) in gr.pred[hdr.id]:
+        na = gr.nodes[a]
+        if hdr.id not in dom_r.get(a, ()) or a == hdr.id:
+            continue                      # the edge that enters the loop
+        n_back += 1
+        fs = fr.along(na, lbl)
+        ok = any(any(p_ and ".get('scheduled'" in t.replace('"', "'") and t.startswith("t.") for (t, p_) in cl)
+                 and all((p_ and ".get('scheduled'" in t.replace('"', "'") and t.startswith("t.")) or ((not p_) and t == "t") for (t, p_) in cl)
+                 for cl in fs)
+        ctx.ob("R04.7", f"{rdy.qual}: iteration ends at line {getattr(na.ast, 'lineno', '?')} with the predecessor's own scheduled flag established",
+               (rdy, na.ast), ok,
+               "next edge is examined only when this predecessor is missing or itself marked scheduled" if ok else
+               "an iteration of the readiness loop can complete without the predecessor's own `scheduled` flag being set (e.g. a "
+               "container judged by its leaves): the task becomes ready before the predecessor's end date exists and the bound ignores it",
+               key=key_of("R04.7", rdy, None, "own flag"))
+    if not n_back:
+        raise AnchorMissing("_asapReadyForScheduling: no back edge of the readiness loop found")
+    ctx.floor("R04.7", 1)
     # ---------------------------------------------------------------- R04.6 task identity
     from .common import local_id_identity_rule
     local_id_identity_rule(ctx, "R04.6", ("parser/tjp_parser.py", "core/project.py", "core/task_scenario.py", "core/task.py"),
                            "a dependency edge on one of them is taken for (or dropped as a duplicate of) an edge on the other")
+    from .c16 import scenario_default_rule
+    scenario_default_rule(ctx, "R04.8")
     ctx.floor("R04.1", 5)
     ctx.floor("R04.2", 12)
     ctx.floor("R04.3", 2)
